@@ -101,7 +101,8 @@ def main(tier):
                 {"kind": "locality", "doc": m["doc"], "block": i, "keys": keys, "with": full, "without": less,
                  "observed_with": obs[fid], "observed_without": obs[wo], "signature": sig}, sig)
     import fixrel
-    fixrel.c20(chk, tier)
+    gen = fixrel.from_texts([("generated-%d" % n, apidoc.render(m["doc"])[0]) for n, m in enumerate(docs) if n % (2 if tier == "thorough" else 3) == 0])
+    fixrel.c20(chk, tier, extra=gen)
     if meta:
         x = next(iter(meta.values()))
         chk.sample({"doc": x[1]["doc"], "independent_block": x[2], "its_catalog_keys": x[3]})
